@@ -11,6 +11,7 @@ import (
 
 	"verif/harness/internal/observe"
 	"verif/harness/internal/refmodel"
+	"verif/harness/internal/rng"
 	"verif/harness/internal/run"
 	"verif/harness/internal/world"
 )
@@ -585,6 +586,15 @@ func runC09(c *run.Ctx) {
 			w = genExposureWorld(g, false)
 			if g.P(0.4) {
 				world.AddCanonStress(g, w)
+			}
+			if g.P(0.25) && len(w.Workloads) > 0 {
+				// a workload governed in both directions by rules that name address blocks only: it has connections with external
+				// addresses but no potential exposure inside the cluster - its lines belong to the base relation of every format only
+				x := rng.Pick(g, w.Workloads)
+				w.NetPols = append(w.NetPols, world.NetPol{Ns: x.Ns, Name: "addresses-only", PodSel: *world.SelFor(g, x.Labels), HasTypes: true, PolicyTypes: []string{"Ingress", "Egress"},
+					Ingress: []world.NPRule{{Peers: []world.NPPeer{{IPBlock: &world.IPB{CIDR: "10.0.0.0/8"}}}, Ports: []world.NPPort{{Port: 8080}}}},
+					Egress:  []world.NPRule{{Peers: []world.NPPeer{{IPBlock: &world.IPB{CIDR: rng.Pick(g, []string{"192.168.0.0/16", "10.0.0.0/8"})}}}}}})
+				w.AddFeature("addressesOnlyWorkloadUnderExposure")
 			}
 		} else {
 			if g.P(0.4) {
